@@ -49,50 +49,19 @@ theorem checkEv_ln_page (lnM bbnM : Array UInt8) (lnB bbnB lnS bbnS : Nat) (st s
 
 theorem checkEv_bbn_page (lnM bbnM : Array UInt8) (lnB bbnB lnS bbnS : Nat) (st st' : PlacementStats) (e : IoEv)
     (hk : e.kind = "Write") (hf : e.file = "bbn") (h : checkEv lnM bbnM lnB bbnB lnS bbnS st e = .ok st') :
-    ∃ s s', pageCheck "bbn" bbnM bbnB s e = .ok s' := by
+    ∃ s s', pageCheckBbn bbnM bbnB s e = .ok s' := by
   unfold checkEv at h
   have hne : ("bbn" == "ln") = false := by decide
   simp only [hk, hf, beq_self_eq_true, Bool.and_self, if_true, hne, Bool.and_false, Bool.false_eq_true, if_false] at h
-  cases hp : pageCheck "bbn" bbnM bbnB { st with preMetaEvents := st.preMetaEvents + 1 } e with
+  cases hp : pageCheckBbn bbnM bbnB { st with preMetaEvents := st.preMetaEvents + 1 } e with
   | error m => simp [hp, Except.map] at h
   | ok s => exact ⟨_, _, hp⟩
 
-/-- no never-written page below the `bbn` frontier: every page in `[1, bbn_bump)` is claimed (branch node, free-list page
-or free page) — the image monitor's `bbn_leaked = 0` -/
-def NoBbnLeak (m : Meta) (bbnM : Array UInt8) : Prop := ∀ pn : Nat, pn ≠ 0 → pn < m.bbnBump → bbnM[pn]! ≠ 0
-
-theorem foldl_count_zero {c : Nat → Bool} : ∀ (l : List Nat) (k : Nat),
-    l.foldl (fun acc pn => if c pn then acc + 1 else acc) k = 0 → k = 0 ∧ ∀ pn ∈ l, c pn = false := by
-  intro l
-  induction l with
-  | nil => intro k h; exact ⟨h, fun _ hp => by cases hp⟩
-  | cons a l ih =>
-    intro k h
-    simp only [List.foldl_cons] at h
-    by_cases hc : c a = true
-    · simp only [hc, if_true] at h
-      have := (ih _ h).1
-      omega
-    · simp only [hc, Bool.false_eq_true, if_false] at h
-      obtain ⟨hk, hl⟩ := ih _ h
-      refine ⟨hk, fun pn hp => ?_⟩
-      rcases List.mem_cons.1 hp with rfl | hp
-      · simpa using hc
-      · exact hl pn hp
-
-theorem noBbnLeak_of_count {m : Meta} {bbnM : Array UInt8} (h : countUnclaimed bbnM m.bbnBump = 0) : NoBbnLeak m bbnM := by
-  intro pn h0 hlt
-  unfold countUnclaimed at h
-  have := (foldl_count_zero (c := fun pn => decide (pn ≥ 1) && bbnM[pn]! == 0) _ _ h).2 pn (List.mem_range.2 hlt)
-  have h1 : decide (pn ≥ 1) = true := by simp; omega
-  simp only [h1, Bool.true_and, beq_eq_false_iff_ne] at this
-  exact this
-
-/-- **`checkPlacement` accepted ⇒ read-set agreement**: whatever sub-list of the accepted pre-switch-over events' page
+/-- **`checkPlacement` accepted ⇒ read-set agreement** (no side condition: the monitor itself rejects writes to unclaimed `bbn`
+pages below the frontier, `pageCheckBbn`): whatever sub-list of the accepted pre-switch-over events' page
 writes reached the files (any contents), the result agrees with the pre-image on every page the decoder reads. -/
 theorem placement_readAgree {img : Image} {tr : List IoEv} {stP : PlacementStats} (h : checkPlacement img tr = .ok stP)
     {m : Meta} {st : Stats} {lnM bbnM : Array UInt8} (hm : imageMeta img = .ok m) (hd : wfDetailM img = .ok (st, lnM, bbnM))
-    (hleak : NoBbnLeak m bbnM)
     (sub : List IoEv) (hsub : sub.Sublist (preMeta tr)) (B : Image) (hmeta : B.metaF = img.metaF)
     (hln : Touched img.ln B.ln (writesOf "ln" sub)) (hbbn : Touched img.bbn B.bbn (writesOf "bbn" sub)) :
     ReadAgree img B m lnM bbnM := by
@@ -117,12 +86,15 @@ theorem placement_readAgree {img : Image} {tr : List IoEv} {stP : PlacementStats
     obtain ⟨s, s', hc⟩ := hev e (hsub.subset he)
     obtain ⟨s2, s2', hp⟩ := checkEv_ln_page _ _ _ _ _ _ _ _ e hk hf hc
     exact pageCheck_ok_spec _ _ _ _ _ e hp
-  have hbbnW : ∀ pn, pn ∈ writesOf "bbn" sub → pn ≠ 0 ∧ ¬ (pn < m'.bbnBump ∧ (bbnM'[pn]! = 1 ∨ bbnM'[pn]! = 2 ∨ bbnM'[pn]! = 3)) := by
+  have hbbnW : ∀ pn, pn ∈ writesOf "bbn" sub → pn ≠ 0 ∧ ¬ (pn < m'.bbnBump ∧ (bbnM'[pn]! = 1 ∨ bbnM'[pn]! = 2 ∨ bbnM'[pn]! = 3)) ∧
+      ¬ (pn ≠ 0 ∧ pn < m'.bbnBump ∧ bbnM'[pn]! = 0) := by
     intro pn hpn
     obtain ⟨e, he, hk, hf, rfl⟩ := mem_writesOf hpn
     obtain ⟨s, s', hc⟩ := hev e (hsub.subset he)
     obtain ⟨s2, s2', hp⟩ := checkEv_bbn_page _ _ _ _ _ _ _ _ e hk hf hc
-    exact pageCheck_ok_spec _ _ _ _ _ e hp
+    obtain ⟨hp1, hp2⟩ := pageCheckBbn_ok _ _ _ _ _ hp
+    obtain ⟨q1, q2⟩ := pageCheck_ok_spec _ _ _ _ _ e hp1
+    exact ⟨q1, q2, hp2⟩
   have keep : ∀ (f f' : ByteArray) (T : List Nat) (bump pn : Nat), Touched f f' T → bump * PAGE ≤ f.size → pn < bump → pn ∉ T →
       pageOf f' pn = pageOf f pn := by
     intro f f' T bump pn ht hs hlt hn
@@ -150,13 +122,11 @@ theorem placement_readAgree {img : Image} {tr : List IoEv} {stP : PlacementStats
       exact keep _ _ _ _ 0 hbbn hbbnS hlt (fun hc => (hbbnW 0 hc).1 rfl)
     · apply keep _ _ _ _ pn hbbn hbbnS hlt
       intro hc
-      apply (hbbnW pn hc).2
-      refine ⟨hlt, ?_⟩
-      have hne := hleak pn h0 hlt
+      obtain ⟨_, hw2, hw3⟩ := hbbnW pn hc
       rcases hbbnVal pn with h | h | h | h
-      · exact absurd h hne
-      · exact Or.inl h
-      · exact Or.inr (Or.inr h)
+      · exact hw3 ⟨h0, hlt, h⟩
+      · exact hw2 ⟨hlt, Or.inl h⟩
+      · exact hw2 ⟨hlt, Or.inr (Or.inr h)⟩
       · exact absurd h hmk
 
 end Nomt.Store
